@@ -963,6 +963,11 @@ func DeleteHistoricVersions(ctx context.Context, s *DB, before time.Time) error 
 		if err != nil {
 			return fmt.Errorf("delete node: %s: %w", l, err)
 		}
+		// mast does not store a node that its cache contains: a tree that
+		// returns to this content must not believe the object still exists
+		if c, ok := s.cfg.NodeCache.(interface{ Remove(key interface{}) }); ok {
+			c.Remove(fmt.Sprintf("%s/%s", s.persist.NodeURLPrefix(), l))
+		}
 	}
 	for _, l := range roots {
 		_, err := s.s3Client.DeleteObjectWithContext(ctx, &s3.DeleteObjectInput{
